@@ -8,6 +8,18 @@ ROOT = os.path.dirname(os.path.dirname(os.path.abspath(__file__)))
 props = [json.loads(l) for l in open(os.path.join(ROOT, "properties.jsonl"))]
 
 CHECKS = {
+    "C02": dict(
+        text="Hist.tla enumerates every meaningful history of length 4/5 over backup, stale backup, forget, prune(instant?), tick "
+             "(plus simulated length-7 histories that can reach Recover); each is executed on the real repository with seeded "
+             "options. RepoTrace.tla validates the operation log: every visible snapshot Readable after every storage "
+             "operation, pack removals honour mark time + keep-delete, a completed prune leaves no used blob only in a marked "
+             "pack; after every command the real check must be clean and every snapshot must read back to its recorded "
+             "content. Repo.tla (TLC, exhaustive small scope) establishes the same formulas for the design.",
+        note="Bounded: 3 evolving source versions of <= 4 files, fixed 64-byte chunks, pack sizes 100..2000 bytes; prune options "
+             "drawn from the seeded generator (all limit kinds, repack flags, keep-pack/keep-delete, instant). Logical time by "
+             "shifting stored index times. Typed-id collisions are decided under C07/C01.",
+        technique="TLC-generated histories replayed on the real repository + TLC trace validation of the storage log",
+        design="4/C02"),
     "C03": dict(
         text="Repo.tla (TLC, exhaustive for 2 versions / 3 commands) shows the ordering design keeps every visible snapshot "
              "readable at every crash point of backup/forget/prune. The code is bound to it by trace validation: each "
